@@ -105,7 +105,13 @@ func (c *Check) decodePrefixRules(rule string) {
 			n++
 			st := r.State
 			// octets = (bl+7)/8 ; facts: len(b)-1 >= octets
+			// ceil(bits/8), computed in the octet's own type or widened to int
+			// first (the same number: bits+7 <= 135 does not wrap)
 			oct := mkBin(token.QUO, mkBin(token.ADD, bl, mkConst(7, bl.Typ), bl.Typ, bl.Typ), mkConst(8, bl.Typ), bl.Typ, bl.Typ)
+			octW := mkBin(token.QUO, mkBin(token.ADD, bl, mkConst(7, intT), intT, intT), mkConst(8, intT), intT, intT)
+			if !st.impliedGE(st.linOf(mkLen(b)).add(linConst(1), -1).add(st.linOf(oct), -1)) && st.impliedGE(st.linOf(mkLen(b)).add(linConst(1), -1).add(st.linOf(octW), -1)) {
+				oct = octW
+			}
 			need := st.linOf(mkLen(b)).add(linConst(1), -1).add(st.linOf(oct), -1)
 			ok := st.impliedGE(need)
 			c.require(ok, rule, "decodePrefix", fmt.Sprintf("success implies enough octets (ipv6=%d)", fv), p.InstrPos(r.Instr), "on success len(field)-1 >= ceil(bits/8): the address octets are all present")
@@ -147,6 +153,13 @@ func (c *Check) decodePrefixRules(rule string) {
 				oct := mkBin(token.QUO, mkBin(token.ADD, bl, mkConst(7, bl.Typ), bl.Typ, bl.Typ), mkConst(8, bl.Typ), bl.Typ, bl.Typ)
 				hi := linConst(1).add(st.linOf(oct), 1)
 				ok, d := sliceIs(st, args[1], b, linConst(1), &hi)
+				if !ok {
+					octW := mkBin(token.QUO, mkBin(token.ADD, bl, mkConst(7, intT), intT, intT), mkConst(8, intT), intT, intT)
+					hiW := linConst(1).add(st.linOf(octW), 1)
+					if okW, _ := sliceIs(st, args[1], b, linConst(1), &hiW); okW {
+						ok = true
+					}
+				}
 				c.require(ok, rule, "decodePrefix", "address octets copied", p.InstrPos(cl.(ssa.Instruction)), "copy source is field[1 : 1+ceil(bits/8)] — "+d)
 			}
 		}
